@@ -58,6 +58,11 @@ type Profile struct {
 	WaitOnNeverPath int
 	// SoftHang: add a never-ending step that is referenced only through !soft-optional.
 	SoftHang bool
+	// PSimple: percent of plugin steps that use the two-output step `work_simple` (never with mode alt).
+	PSimple int
+	// StageRefs: percent of plugin steps whose whole `outputs` stage object ($.steps.x.outputs: a map
+	// holding whichever output the step ended in) is returned by the first workflow output.
+	StageRefs int
 }
 
 // Doc is a workflow input document.
@@ -140,7 +145,7 @@ func (g *genCtx) genInt(depth int) *Expr {
 		return g.inputInt()
 	case k <= 3:
 		if s := g.pickPrior("int_src"); s != nil && s.Kind == "plugin" {
-			if g.pct(g.prof.PErrPathRef, "int_errpath") {
+			if !s.Simple && g.pct(g.prof.PErrPathRef, "int_errpath") {
 				return StepRef(s.ID, "outputs", "alt", "a")
 			}
 			return StepRef(s.ID, "outputs", "success", "a")
@@ -258,10 +263,16 @@ func (g *genCtx) genPluginStep(id string) *Step {
 			s.In = append(s.In, F("o", Ref("input", "opt")))
 		}
 	}
+	mode := ""
 	if g.pct(g.prof.PBad, "bad") && len(g.prof.Modes) > 0 {
-		s.In = append(s.In, F("mode", Lit(rapid.SampledFrom(g.prof.Modes).Draw(g.t, "mode"))))
+		mode = rapid.SampledFrom(g.prof.Modes).Draw(g.t, "mode")
+		s.In = append(s.In, F("mode", Lit(mode)))
 	} else if g.item && g.pct(50, "item_mode") {
+		mode = "item"
 		s.In = append(s.In, F("mode", Ref("input", "mode")))
+	}
+	if mode != "alt" && mode != "item" && g.pct(g.prof.PSimple, "simple") {
+		s.Simple = true
 	}
 	if d := g.dur(); d > 0 {
 		s.In = append(s.In, F("dur", Lit(d)))
@@ -499,6 +510,11 @@ func GenProgram(t *rapid.T, prof *Profile, doc Doc) *Program {
 		if g.pct(25, "out_input_tag") {
 			fields = append(fields, F("in_tag", Ref("input", "tag")))
 		}
+		for _, s := range p.Steps {
+			if s.Kind == "plugin" && g.pct(prof.StageRefs, "stage_ref") {
+				fields = append(fields, F("st_"+s.ID, StepRef(s.ID, "outputs", "")))
+			}
+		}
 	}
 	if prof.Tags {
 		var plug []*Step
@@ -512,7 +528,9 @@ func GenProgram(t *rapid.T, prof *Profile, doc Doc) *Program {
 			a := plug[rapid.IntRange(0, len(plug)-1).Draw(t, "pick_a")]
 			b := plug[rapid.IntRange(0, len(plug)-1).Draw(t, "pick_b")]
 			if a != b {
-				fields = append(fields, F("pick", OneOf("which", F("opt_"+a.ID, StepRef(a.ID, "outputs", "success")), F("opt_"+b.ID, StepRef(b.ID, "outputs", "success")))))
+				// (option names may contain dots: they are names, not paths)
+				sep := rapid.SampledFrom([]string{"_", "_", "."}).Draw(t, "option_name_sep")
+				fields = append(fields, F("pick", OneOf("which", F("opt"+sep+a.ID, StepRef(a.ID, "outputs", "success")), F("opt"+sep+b.ID, StepRef(b.ID, "outputs", "success")))))
 			}
 		}
 		if len(plug) >= 2 && g.pct(50, "optional_two_sources") {
@@ -536,7 +554,8 @@ func GenProgram(t *rapid.T, prof *Profile, doc Doc) *Program {
 			case 2:
 				fields = append(fields, F("od_"+s.ID, Opt("ordisabled", StepRef(s.ID, "outputs", "success"))))
 			case 3:
-				fields = append(fields, F("oo_"+s.ID, OneOf("kind", F("ran", StepRef(s.ID, "outputs", "success")), F("off", StepRef(s.ID, "disabled", "output")))))
+				ran := rapid.SampledFrom([]string{"ran", "ran", "ran.v1"}).Draw(t, "ran_option_name")
+				fields = append(fields, F("oo_"+s.ID, OneOf("kind", F(ran, StepRef(s.ID, "outputs", "success")), F("off", StepRef(s.ID, "disabled", "output")))))
 			case 5:
 				// waiting for an output the step may well not end in: absent exactly then
 				fields = append(fields, F("we_"+s.ID, Opt("wait-optional", StepRef(s.ID, "outputs", "error", "reason"))))
@@ -593,7 +612,9 @@ func GenProgram(t *rapid.T, prof *Profile, doc Doc) *Program {
 	if nOut >= 3 {
 		s := p.Steps[rapid.IntRange(0, len(p.Steps)-1).Draw(t, "alt_src")]
 		if s.Kind == "plugin" {
-			p.Outputs = append(p.Outputs, Output{ID: "other", E: Obj(F("x", StepRef(s.ID, "outputs", "alt", "a")))})
+			if !s.Simple {
+				p.Outputs = append(p.Outputs, Output{ID: "other", E: Obj(F("x", StepRef(s.ID, "outputs", "alt", "a")))})
+			}
 		} else {
 			p.Outputs = append(p.Outputs, Output{ID: "other", E: Obj(F("x", StepRef(s.ID, "disabled", "output")))})
 		}
